@@ -50,8 +50,8 @@ def main():
                 continue
             det = {}
             for c in m["checks"]:
-                q = subprocess.run([sys.executable, os.path.join(VERIF, "bin", "check.py"), c, "--tier", tier],
-                                   env=dict(os.environ, VERIF_REPO=tmp, VERIF_NO_EVIDENCE="1", VERIF_SEED="1"),
+                q = subprocess.run([sys.executable, os.path.join(VERIF, "bin", "check.py"), c, "--tier", m.get("tier") or tier],
+                                   env=dict(os.environ, VERIF_REPO=tmp, VERIF_NO_EVIDENCE="1", VERIF_SEED="1", **m.get("env", {})),
                                    stdout=subprocess.PIPE, stderr=subprocess.PIPE, text=True, cwd=VERIF)
                 det[c] = dict(exit=q.returncode, keys=re.findall(r"key=(\S+)", q.stderr)[:6])
             hit = [c for c, d in det.items() if d["exit"] == 1]
